@@ -279,6 +279,13 @@ class FakeNet:
         except (TypeError, ValueError):
             raise self.gaierror(-8, "Servname not supported for ai_socktype")
         res = self.dns.get((host, p))
+        if not res and isinstance(host, str):
+            # host names are case-insensitive for a resolver
+            low = host.lower()
+            for (h_, p_), r_ in self.dns.items():
+                if p_ == p and isinstance(h_, str) and h_.lower() == low:
+                    res = r_
+                    break
         if not res:
             raise self.gaierror(-2, "Name or service not known")
         return [(fam, self.SOCK_STREAM, self.IPPROTO_TCP, "", sa) for fam, sa in res]
